@@ -16,6 +16,7 @@
 #include <sstream>
 #include <string>
 #include <vector>
+#include <algorithm>
 #include <signal.h>
 #include <sys/wait.h>
 #include <unistd.h>
@@ -28,6 +29,28 @@
 
 using namespace occa;
 using namespace occa::lang;
+
+// The library is built with -fsanitize=undefined -fno-sanitize-recover: its arithmetic checks call the
+// __ubsan_handle_*_abort entry points.  The executable's definitions below take precedence over
+// libubsan's, so that undefined behaviour in the folder's arithmetic is observed at the exact point
+// where UBSan detects it, by a longjmp back into evalTokens (no report, no process death, no fork; the
+// abandoned evaluation leaks, which is irrelevant in the short-lived child).  Every other UBSan/ASan
+// report still ends the child process and is classified by its exit status in main().
+#include <setjmp.h>
+static sigjmp_buf ubJump;
+static volatile bool ubArmed = false;
+static void libraryUB() {
+  if (ubArmed) siglongjmp(ubJump, 1);
+  _exit(98);
+}
+extern "C" {
+  void __ubsan_handle_add_overflow_abort(void *, void *, void *) { libraryUB(); }
+  void __ubsan_handle_sub_overflow_abort(void *, void *, void *) { libraryUB(); }
+  void __ubsan_handle_mul_overflow_abort(void *, void *, void *) { libraryUB(); }
+  void __ubsan_handle_negate_overflow_abort(void *, void *) { libraryUB(); }
+  void __ubsan_handle_divrem_overflow_abort(void *, void *, void *) { libraryUB(); }
+  void __ubsan_handle_shift_out_of_bounds_abort(void *, void *, void *) { libraryUB(); }
+}
 
 static std::string show(const primitive &p) {
   std::ostringstream o;
@@ -61,10 +84,18 @@ static std::string evalTokens(tokenVector &tokens) {
   try {
     expr = expressionParser::parse(tokens);
     if (expr && expr->canEvaluate()) {
-      primitive v = expr->evaluate();
-      res = show(v);
+      if (sigsetjmp(ubJump, 0) == 0) {
+        ubArmed = true;
+        primitive v = expr->evaluate();
+        ubArmed = false;
+        res = show(v);
+      } else {
+        ubArmed = false;
+        return "UB";    // the expression tree and the temporaries of the abandoned evaluation are leaked
+      }
     }
   } catch (occa::exception &e) {
+    ubArmed = false;
     res = "ERR";
   } catch (std::exception &e) {
     res = "ERR";
@@ -84,13 +115,14 @@ static std::string evalLine(const std::string &line) {
   }
 }
 
-static void childRun(const std::vector<std::string> &lines, size_t from, FILE *out) {
-  const size_t n = lines.size() - from;
+// evaluate lines[from .. to) and print one result line each
+static void runChunk(const std::vector<std::string> &lines, size_t from, size_t to, FILE *out) {
+  const size_t n = to - from;
   std::vector<tokenVector> groups;
   bool batched = false;
   std::string all;   // the tokens point into this buffer (used when the parser prints an error)
   try {
-    for (size_t i = from; i < lines.size(); ++i) {
+    for (size_t i = from; i < to; ++i) {
       all += lines[i];
       all += '\n';
     }
@@ -121,6 +153,13 @@ static void childRun(const std::vector<std::string> &lines, size_t from, FILE *o
     }
     fprintf(out, "R %s\n", res.c_str());
     fflush(out);
+  }
+}
+
+static void childRun(const std::vector<std::string> &lines, size_t from, FILE *out) {
+  const size_t chunk = 48;   // a crash costs re-tokenizing at most this many lines
+  for (size_t k = from; k < lines.size(); k += chunk) {
+    runChunk(lines, k, std::min(k + chunk, lines.size()), out);
   }
 }
 
